@@ -33,7 +33,12 @@ import subprocess
 import vlib
 from checks import C07
 
-BE = dict(Period=2, MaxBlocks=3, MaxTx=1, MaxEv=1, Frac=2, ZeroPenaltyUnlisted="FALSE", GenMode='"none"')
+BE = dict(Period=2, MaxBlocks=3, MaxTx=1, MaxEv=1, Frac=2, ZeroPenaltyUnlisted="FALSE", MaxFlips=0,
+          ReorgRewritesLookups="TRUE", ExecBeforeSwitchBack="FALSE", GenMode='"none"')
+# the importing node switches to a sibling branch and back (period 3: a pending transaction, the switch, the period end)
+BE_REORG = dict(BE, Period=3, MaxBlocks=5, MaxEv=0, MaxFlips=1)
+OPTS_REORG3 = {"period": 3, "mrp": 1, "wdelay": 1, "inact": 2}
+OPTS_TIGHT = {"gaslimit": 100000}          # a block that holds four plain transfers
 OPTS_SMALL = {"period": 2, "mrp": 1, "wdelay": 1, "inact": 2}
 OPTS_DEFAULT = {}
 
@@ -150,7 +155,10 @@ def add_evidences(h, rnd):
 
 # ---------------------------------------------------------------------------------------------- miner stage
 MINER = dict(Accts='{"u1", "u2"}', MaxSubmit=2, MaxBlocks=2, BlockGas=3, Funds=6, RevertOnFailure="TRUE",
-             ReceiptOnlyOnSuccess="TRUE", GenMode='"none"')
+             ReceiptOnlyOnSuccess="TRUE", PoolCreditOnce="TRUE",
+             Kinds='{"transfer", "drain", "biggas", "gap", "widegas", "ample"}', Prices='{1, 2}', GenMode='"none"')
+# directed configuration for the gas-pool switch: a drained sender's ample follower is rejected, then the block is filled
+MINER_POOL = dict(MINER, MaxSubmit=5, MaxBlocks=1, Funds=8, Kinds='{"transfer", "drain", "ample"}', Prices='{1}')
 
 
 def miner_cfg(consts, mode):
@@ -235,6 +243,72 @@ def miner_scenario():
             blk("g2"), blk("g1")]
 
 
+def tight_scenario():
+    """Hand-rolled builder, block gas limit 100 000: one skipped transaction of every rejection class, then more plain
+    transfers than the block admits."""
+    tx = C07.tx
+    return [dict(cb="g1", txs=[tx("transfer", a="u1", b="u2", x=1)]),
+            dict(cb="g1", txs=[tx("lownonce", a="u1", b="u2", x=1), tx("badnonce", a="u2", b="u1", x=1), tx("poor", a="p1", b="u1", x=1, p=3),
+                               tx("lowgas", a="u2", b="u1", x=1), tx("nofunds", a="u3", b="u1", g=50000),
+                               tx("transfer", a="u3", b="u1", x=1, g=90000)]
+                 + [tx("transfer", a=a, b="g1", x=1) for a in ("u1", "u2", "u3", "g2", "g3", "n1", "n2")]),
+            dict(cb="g1", txs=[tx("transfer", a="u1", b="u2", x=1)])]
+
+
+def miner_tight_scenario():
+    """Real miner, block gas limit 100 000: a sender drained by its own first transaction, whose ample follower can pay its
+    gas but not its value (rejected after the gas was bought), ahead (price 2) of eight plain transfers (price 1)."""
+    return [dict(cb="g1", txs=[mtx("transfer", a="u1", b="u2")]),
+            dict(cb="g1", txs=[mtx("drain", a="u3", b="u1", x=60000, p=2), mtx("transfer", a="u3", b="u1", x=20000, p=2, g=50000)]
+                 + [mtx("transfer", a=a, b="g1") for a in ("u1", "u1", "u1", "u2", "u2", "u2", "g2", "g3")]),
+            dict(cb="g1", txs=[mtx("transfer", a="u2", b="u1")])]
+
+
+def tight_programs(rnd, n, miner=False):
+    """Seeded programs for the tight gas limit: a prefix of skipped transactions of seeded classes, then a fill."""
+    out = []
+    senders = ["u1", "u2", "u3", "g2", "g3", "n1", "n2"]
+    for _ in range(n):
+        blocks = [dict(cb="g1", txs=[mtx("transfer", a="u1", b="u2")])]
+        for _b in range(3):
+            txs = []
+            a = rnd.choice(["u2", "u3", "n1"])
+            if miner:
+                # only what the pool lets through: a drained sender's followers
+                txs += [mtx("drain", a=a, b="u1", x=rnd.choice([60000, 30000, 5000]), p=2),
+                        mtx(rnd.choice(["transfer", "ample"]), a=a, b="u1", x=20000, p=2, g=rnd.choice([0, 50000, 90000])),
+                        mtx("transfer", a=a, b="u1", p=2)]
+            else:
+                for k in rnd.sample(["lownonce", "badnonce", "poor", "lowgas", "nofunds", "widegas"], 3):
+                    txs.append(C07.tx(k, a="p1" if k == "poor" else a, b="u1", x=1, p=3 if k == "poor" else 1,
+                                      g=rnd.choice([50000, 90000]) if k == "nofunds" else 0))
+            fill = [s for s in senders if s != a]
+            rnd.shuffle(fill)
+            txs += [mtx("transfer", a=s, b="g1") for s in fill] + [mtx("transfer", a=fill[0], b="g1")]
+            blocks.append(dict(cb="g1", txs=txs))
+        out.append(blocks)
+    return out
+
+
+def reorg_scenario():
+    """The importing node is switched to a sibling branch and back while staking transactions are pending in the blocks it
+    re-adopts as non-head blocks; the staking period ends afterwards (blocks 7 and 11)."""
+    tx = C07.tx
+
+    def blk(*txs, rg=0):
+        b = dict(cb="g1", txs=list(txs))
+        if rg:
+            b["rg"] = rg
+        return b
+    return [blk(tx("update", a="g2", v="g2", f=1, c=1000), tx("transfer", x=3)), blk(), blk(), blk(),
+            blk(tx("deposit", a="g2", v="g2", x=15), tx("dadd", a="u1", v="g2", x=25)),
+            blk(tx("withdraw", a="g1", v="g1", b="u3", x=33), rg=1),      # re-adopts block 5 as a non-head block
+            blk(tx("transfer", a="u2", b="u1", x=1)),                      # period end
+            blk(tx("dsub", a="u1", v="g2", x=10)), blk(tx("deposit", a="g3", v="g3", x=7)),
+            blk(tx("transfer", a="u2", b="u1", x=1), rg=2),               # re-adopts blocks 8 and 9
+            blk(), blk(), blk()]
+
+
 def miner_stage(ctx, sim, rnd):
     """The REAL miner (miner.NewMiner, worker loops) over a stub backend with the real TxPool assembles and seals the blocks."""
     quick = ctx.quick
@@ -248,6 +322,11 @@ def miner_stage(ctx, sim, rnd):
         if not r.violated:
             raise vlib.Undecided("the miner model without %s has no counterexample: the property does not depend on the mechanism" % sw)
         detected.append("%s=FALSE -> %s" % (sw, r.violated))
+    r = ctx.tlc_must("BlockExec_Miner", miner_cfg(dict(MINER_POOL, PoolCreditOnce="FALSE"), "M"), name="M_miner_noPoolCreditOnce", timeout=1200)
+    cexp = [v["h"] for v in r.printed if isinstance(v, dict) and v.get("kind") == "CEX"]
+    if not r.violated or not cexp:
+        raise vlib.Undecided("the miner model with the gas pool credited twice has no counterexample")
+    detected.append("PoolCreditOnce=FALSE -> %s" % r.violated)
     ctx.cov["miner_model_mutations_detected"] = detected
     if quick:
         # a seeded sample of the miner model's programs (the bounded-exhaustive set has ~55 000 members)
@@ -262,7 +341,12 @@ def miner_stage(ctx, sim, rnd):
         + [to_pool_program(h, rnd) for h in sim] + progs
     ctx.note("miner stage: %d pool programs (%d from the miner model, %d from generated histories)" % (len(behs), len(progs), len(sim)))
     build_miner(ctx)
-    judge(ctx, behs, OPTS_DEFAULT, "miner", two_processes=False, driver="minerexec")
+    # the miner model's programs are about a block that holds a few transactions: they run with the tight gas limit, together
+    # with the over-fill program TLC found for a doubly credited pool and the tight scenarios; the others with the default one
+    hist_progs = [b for b in behs if b not in progs]
+    judge(ctx, hist_progs, OPTS_DEFAULT, "miner", two_processes=False, driver="minerexec")
+    judge(ctx, [miner_tight_scenario()] + cexp[:1] + tight_programs(rnd, 2 if quick else 40, miner=True) + progs, OPTS_TIGHT,
+          "miner_tight", two_processes=False, driver="minerexec")
     fired = ctx.cov.get("clauses_fired", {})
     idle = sorted(k for k in ("MinerIncludesOnlyExecutable", "MinerDropped", "MinerRejected") if not fired.get(k))
     if idle and not ctx.violations:
@@ -321,7 +405,7 @@ def run(ctx):
     wit = load_witnesses()
     # with seeded evidences, and as they are: the scenario whose validator with five delegators is penalised for
     # inactivity (4) and the handler-check scenario (5) must not be disturbed by an earlier expulsion
-    scen = [add_evidences(s, rnd) for s in C07.scenarios()] + [C07.scenarios()[i] for i in (0, 4, 5)]
+    scen = [add_evidences(s, rnd) for s in C07.scenarios()] + [C07.scenarios()[i] for i in (0, 4, 5)] + [reorg_scenario()]
     ctx.note("programs: %d witnesses, %d scenarios, %d design cex, %d bounded programs, %d simulated histories" % (
         len(wit), len(scen), len(expect), len(small) - len(expect), len(sim)))
     for b in (small[0], sim[0] if sim else None):
@@ -329,6 +413,24 @@ def run(ctx):
             ctx.sample(b)
     # ---------------------------------------------------------------- T
     judge(ctx, small, OPTS_SMALL, "small", expect, two_processes=False)
+    # ---- the importing node switches to a sibling branch and back
+    mr = ctx.tlc_must("BlockExec", cfg(BE_REORG, "M"), name="M_reorg_repaired", timeout=1200)
+    if mr.violated:
+        raise vlib.Undecided("the repaired reorg model violates %s: specification error" % mr.violated)
+    ra = ctx.tlc_must("BlockExec", cfg(dict(BE_REORG, ExecBeforeSwitchBack="TRUE"), "M"), name="M_reorg_ExecBeforeSwitchBack", timeout=1200)
+    rcex = [v["h"] for v in ra.printed if isinstance(v, dict) and v.get("kind") == "CEX"]
+    if not ra.violated or not rcex:
+        raise vlib.Undecided("the reorg model as coded (ExecBeforeSwitchBack) has no counterexample: specification drift")
+    rn = ctx.tlc_must("BlockExec", cfg(dict(BE_REORG, ReorgRewritesLookups="FALSE"), "M"), name="M_reorg_noRewrite", timeout=1200)
+    if not rn.violated:
+        raise vlib.Undecided("the reorg model without the lookup rewrite has no counterexample: the property does not depend on it")
+    ctx.cov["reorg_model_mutations_detected"] = ["ReorgRewritesLookups=FALSE -> %s" % rn.violated]
+    gr = ctx.tlc_must("BlockExec", cfg(dict(BE_REORG, ExecBeforeSwitchBack="TRUE", GenMode='"leaf"'), "G"), name="G1_reorg_programs", timeout=2400)
+    rprogs = [v["h"] for v in gr.printed if isinstance(v, dict) and v.get("kind") == "B" and any(b.get("rg") for b in v["h"])]
+    rnd.shuffle(rprogs)
+    judge(ctx, rcex[:1] + rprogs[:40 if quick else 600], OPTS_REORG3, "reorg3", {0: "ExecBeforeSwitchBack"}, two_processes=False)
+    # ---- a block that holds four transfers: skipped transactions of every class, then a fill
+    judge(ctx, [tight_scenario()] + tight_programs(rnd, 3 if quick else 60), OPTS_TIGHT, "tight", two_processes=False)
     # the second driver process (cross-process determinism) runs in the thorough tier only
     trace = judge(ctx, [b for _, bs, o in wit if not o for b in bs] + scen + sim, OPTS_DEFAULT, "default", two_processes=not quick)
     for i, (f, bs, o) in enumerate(wit):
@@ -336,7 +438,8 @@ def run(ctx):
             judge(ctx, bs, o, "wit%d" % i, two_processes=False)
     miner_stage(ctx, [v["h"] for v in g2.printed if isinstance(v, dict) and v.get("kind") == "B"][:8 if quick else 120], rnd)
     fired = ctx.cov.get("clauses_fired", {})
-    idle = sorted(k for k in ("Deterministic", "BuilderAccepted", "ImportReproduces", "PeriodEnds", "Slashed") if not fired.get(k))
+    idle = sorted(k for k in ("Deterministic", "BuilderAccepted", "ImportReproduces", "PeriodEnds", "Slashed", "Forks", "SwitchBacks")
+                  if not fired.get(k))
     if idle and not ctx.violations:
         raise vlib.Undecided("monitor clauses never fired (vacuous run): %s" % ", ".join(idle))
     if not quick:
